@@ -1,5 +1,6 @@
 import DhcpProofs.Lemmas.V6Parse
 import DhcpProofs.Lemmas.V6Fuel
+import DhcpProofs.Lemmas.V6LeafIff
 /-
   C05 — DHCPv6 decoding accepts exactly well-formed messages and reads the RFC
   values.  `dec6`/`parseOption`/`decOpts` (Dhcp/V6/Codec.lean) model
@@ -7,10 +8,16 @@ import DhcpProofs.Lemmas.V6Fuel
   `POpts` (Dhcp/Spec/Wire6.lean) are the declarative RFC 8415 framing grammar:
   complete header, options tiling the remainder exactly as code/length/value
   triples, recursively through IA_NA, IA_TA, IAADDR, IA_PD, IAPREFIX, the S46
-  4rd container and relay-message options.  The value layout of the leaf
-  options is `decSimple`/`decDUID`; its RFC reading is checked against the
-  independently written Go decoder (oracle c05, harness/cmd/harness/ref6.go)
-  and, for the fixed-size ones, by the lemmas at the end of this file.
+  4rd container and relay-message options.  In `PMsg` the value layout of the
+  leaf options is delegated to `decSimple`/`decDUID`; `Spec.PMsg'`/`POpt'`/
+  `POpts'` (Dhcp/Spec/Wire6Rfc.lean) is the same grammar with every leaf option
+  and DUID given by the declarative per-option RFC layouts `Spec.PLeaf` /
+  `Spec.PDUID` (Dhcp/Spec/Leaf6.lean: no Lexer, no decoder code; the places
+  where the library's acceptance departs from the RFC text are marked
+  `-- library deviation:` there).  The `*_rfc` theorems below state the
+  property against that grammar.  The Go reference decoder of oracle c05
+  (harness/cmd/harness/ref6.go) remains as the tie of the same layouts to the
+  real code.
 -/
 namespace Dhcp.Props
 open Dhcp Dhcp.V6 Dhcp.Spec
@@ -100,6 +107,154 @@ theorem C05_trailing (d junk : Bytes) (os : List Opt6) (h : decOpts d = .ok os)
 /-- Non-vacuity: every encoder output of a well-formed message is derivable
 (so the grammar is inhabited by messages of any depth with every option type). -/
 example (m : Msg6) (h : WFMsg m) : PMsg (encMsg m) m := (dec6_iff _ _).mp (dec6_encMsg m h)
+
+/-! ### against the fully declarative grammar (leaf layouts per RFC) -/
+
+/-- **C05 (exactness against the per-option RFC layouts, messages).** A byte
+string is accepted as a DHCPv6 message or relay message if and only if the
+declarative grammar `PMsg'` derives it — RFC 8415 framing at every nesting level
+AND the RFC layout of every option value and DUID (`PLeaf`, `PDUID`) — and the
+decoded value is the grammar's reading. All byte strings. -/
+theorem C05_exact_rfc (b : Bytes) (m : Msg6) : dec6 b = .ok m ↔ PMsg' b m := dec6_iff_rfc b m
+
+theorem C05_exact_rfc_option (code : Nat) (data : Bytes) (o : Opt6) :
+    parseOption code data = .ok o ↔ POpt' code data o := parseOption_iff_rfc code data o
+theorem C05_exact_rfc_options (data : Bytes) (os : List Opt6) :
+    decOpts data = .ok os ↔ POpts' data os := decOpts_iff_rfc data os
+
+/-- **C05 (leaf options: accepted exactly in their RFC layout).** For every
+option code that holds no DHCPv6 options — the 23 codes with a parser and every
+unknown code — `ParseOption` accepts a value iff it has the declarative layout
+`PLeaf` of that code, and returns its reading. -/
+theorem C05_leaf_layout (c : Nat) (v : Bytes) (o : Opt6) (hc : c ∉ containerCodes) :
+    parseOption c v = .ok o ↔ PLeaf c v o := parseOption_leaf_iff c v o hc
+
+/-- **C05 (DUIDs: accepted exactly in their RFC 8415 §11 layout).** -/
+theorem C05_duid_layout (v : Bytes) (d : DUID) : decDUID v = .ok d ↔ PDUID v d := decDUID_iff v d
+
+/-- **C05 (NTP sub-options, RFC 5908 §4).** -/
+theorem C05_ntp_suboption_layout (c : Nat) (v : Bytes) (s : NTPSub) :
+    parseNTPSub c v = .ok s ↔ PNTPSub c v s := parseNTPSub_iff c v s
+
+/-- the two grammars derive the same messages with the same readings -/
+theorem C05_grammars_agree (b : Bytes) (m : Msg6) : PMsg b m ↔ PMsg' b m := PMsg_iff_rfc b m
+
+/-- **C05 (everything without an RFC reading is an error, never a panic).** -/
+theorem C05_reject_rfc (b : Bytes) (h : ¬ ∃ m, PMsg' b m) : dec6 b = .err :=
+  C05_reject b (fun ⟨m, hm⟩ => h ⟨m, (PMsg_iff_rfc b m).mp hm⟩)
+
+/-- **C05 (the RFC reading is unique).** -/
+theorem C05_functional_rfc (b : Bytes) (m m' : Msg6) (h : PMsg' b m) (h' : PMsg' b m') : m = m' :=
+  PMsg_functional ((PMsg_iff_rfc b m).mpr h) ((PMsg_iff_rfc b m').mpr h')
+
+/-- Edge cases of leaf layouts as lemmas: an ORO value of odd length is rejected … -/
+theorem C05_oro_odd_rejected (v : Bytes) (h : v.length % 2 = 1) : parseOption 6 v = .err := by
+  cases hp : parseOption 6 v with
+  | ok o =>
+    have hl := (C05_leaf_layout 6 v o (by decide)).mp hp
+    generalize h6 : (6 : Nat) = c at hl
+    cases hl with
+    | oro hu =>
+      obtain ⟨_, rfl⟩ := hu
+      rw [flatMap_be16_length] at h; omega
+    | generic hn => subst h6; exact absurd (by decide) hn
+    | _ => cases h6
+  | err => rfl
+  | panic => exact absurd hp (parseOption_ne_panic 6 v)
+
+/-- … repeated codes of an ORO are dropped on decode, first occurrence kept
+(the library's normalisation, part of the specified reading) … -/
+theorem C05_oro_reading (cs : List Nat) (h : ∀ c ∈ cs, c < 65536) :
+    parseOption 6 (cs.flatMap be16) = .ok (.oro (keepFirst cs)) :=
+  (C05_leaf_layout 6 _ _ (by decide)).mpr (.oro ⟨h, rfl⟩)
+
+/-- … and elapsed-time is exactly two octets in units of 10 ms. -/
+theorem C05_elapsed_layout (v : Bytes) (o : Opt6) :
+    parseOption 8 v = .ok o ↔ ∃ t, t < 65536 ∧ v = be16 t ∧ o = .elapsed ((t : Int) * 10000000) := by
+  rw [C05_leaf_layout 8 v o (by decide)]
+  constructor
+  · intro hl
+    generalize h8 : (8 : Nat) = c at hl
+    cases hl with
+    | elapsed ht => exact ⟨_, ht, rfl, rfl⟩
+    | generic hn => subst h8; exact absurd (by decide) hn
+    | _ => cases h8
+  · rintro ⟨t, ht, rfl, rfl⟩
+    exact .elapsed ht
+
+/-- option-code(2) option-len(2) option-data, followed by `rest` (RFC 8415 §21.1) -/
+private abbrev tlvThen (c : Nat) (v rest : Bytes) : Bytes := be16 c ++ (be16 v.length ++ (v ++ rest))
+
+/-- a SOLICIT carrying a client identifier (DUID-LL), an option request with a
+repeated code, an elapsed time of one second, one DNS server, and an IA_NA
+holding an IAADDR that holds a status code -/
+private abbrev exSolicit : Bytes :=
+  1 :: ([0xaa, 0xbb, 0xcc] ++
+    tlvThen 1 (be16 3 ++ (be16 1 ++ [0, 1, 2, 3, 4, 5]))
+    (tlvThen 6 ([23, 24, 23].flatMap be16)
+    (tlvThen 8 (be16 100)
+    (tlvThen 23 ([0x20, 1, 0xd, 0xb8, 0, 0, 0, 0, 0, 0, 0, 0, 0, 0, 0, 1] ++ [])
+    (tlvThen 3 ([0, 0, 0, 7] ++ (be32 3600 ++ (be32 5400 ++
+        tlvThen 5 ([0x20, 1, 0xd, 0xb8, 0, 0, 0, 0, 0, 0, 0, 0, 0, 0, 0, 2] ++ (be32 7200 ++ (be32 10800 ++
+          tlvThen 13 (be16 0 ++ [0x6f, 0x6b, 0x61, 0x79]) []))) [])))
+    [])))))
+
+/-- its octets on the wire -/
+example : exSolicit =
+    [1, 0xaa, 0xbb, 0xcc,
+     0, 1, 0, 10, 0, 3, 0, 1, 0, 1, 2, 3, 4, 5,
+     0, 6, 0, 6, 0, 23, 0, 24, 0, 23,
+     0, 8, 0, 2, 0, 100,
+     0, 23, 0, 16, 0x20, 1, 0xd, 0xb8, 0, 0, 0, 0, 0, 0, 0, 0, 0, 0, 0, 1,
+     0, 3, 0, 50, 0, 0, 0, 7, 0, 0, 0x0e, 0x10, 0, 0, 0x15, 0x18,
+       0, 5, 0, 34, 0x20, 1, 0xd, 0xb8, 0, 0, 0, 0, 0, 0, 0, 0, 0, 0, 0, 2,
+         0, 0, 0x1c, 0x20, 0, 0, 0x2a, 0x30,
+         0, 13, 0, 6, 0, 0, 0x6f, 0x6b, 0x61, 0x79] := rfl
+
+/-- Non-vacuity of the declarative grammar, derived in the specification alone
+(no decoder involved): the message above has a reading, with the repeated ORO
+code dropped, times in nanoseconds, and the nested options in place. -/
+example : PMsg' exSolicit
+    (.msg 1 [0xaa, 0xbb, 0xcc]
+      [.clientID (.ll 1 [0, 1, 2, 3, 4, 5]), .oro [23, 24], .elapsed 1000000000,
+       .dns [some [0x20, 1, 0xd, 0xb8, 0, 0, 0, 0, 0, 0, 0, 0, 0, 0, 0, 1]],
+       .iana [0, 0, 0, 7] 3600000000000 5400000000000
+         [.iaaddr (some [0x20, 1, 0xd, 0xb8, 0, 0, 0, 0, 0, 0, 0, 0, 0, 0, 0, 2])
+            7200000000000 10800000000000 [.status 0 [0x6f, 0x6b, 0x61, 0x79]]]]) :=
+  .msg (t := 1) (xid := [0xaa, 0xbb, 0xcc]) rfl rfl <|
+    .cons (code := 1) (v := be16 3 ++ (be16 1 ++ [0, 1, 2, 3, 4, 5])) (by decide) (by decide)
+      (.clientID (.ll (ht := 1) (a := [0, 1, 2, 3, 4, 5]) (by decide) (by decide))) <|
+    .cons (code := 6) (v := [23, 24, 23].flatMap be16) (by decide) (by decide)
+      (.leaf (.oro (cs := [23, 24, 23]) ⟨by decide, rfl⟩)) <|
+    .cons (code := 8) (v := be16 100) (by decide) (by decide) (.leaf (.elapsed (t := 100) (by decide))) <|
+    .cons (code := 23) (v := [0x20, 1, 0xd, 0xb8, 0, 0, 0, 0, 0, 0, 0, 0, 0, 0, 0, 1] ++ [])
+      (by decide) (by decide) (.leaf (.dns (.cons rfl .nil))) <|
+    .cons (code := 3) (rest := []) (by decide) (by decide)
+      (.iana (iaid := [0, 0, 0, 7]) (s1 := 3600) (s2 := 5400) rfl (by decide) (by decide) <|
+        .cons (code := 5) (rest := []) (by decide) (by decide)
+          (.iaaddr (ip := [0x20, 1, 0xd, 0xb8, 0, 0, 0, 0, 0, 0, 0, 0, 0, 0, 0, 2]) (s1 := 7200)
+            (s2 := 10800) rfl (by decide) (by decide) <|
+            .cons (code := 13) (v := be16 0 ++ [0x6f, 0x6b, 0x61, 0x79]) (rest := []) (by decide)
+              (by decide) (.leaf (.status (c := 0) (by decide))) .nil)
+          .nil)
+      .nil
+
+/-- … and the same bytes are what the decoder model reads (the iff, used). -/
+example : dec6
+    [1, 0xaa, 0xbb, 0xcc, 0, 6, 0, 6, 0, 23, 0, 24, 0, 23, 0, 8, 0, 2, 0, 100] =
+    .ok (.msg 1 [0xaa, 0xbb, 0xcc] [.oro [23, 24], .elapsed 1000000000]) :=
+  (C05_exact_rfc _ _).mpr <|
+    .msg (t := 1) (xid := [0xaa, 0xbb, 0xcc]) rfl rfl <|
+      .cons (code := 6) (v := [23, 24, 23].flatMap be16) (by decide) (by decide)
+        (.leaf (.oro (cs := [23, 24, 23]) ⟨by decide, rfl⟩)) <|
+      .cons (code := 8) (v := be16 100) (rest := []) (by decide) (by decide)
+        (.leaf (.elapsed (t := 100) (by decide))) .nil
+
+/-- A DUID with nothing after its type code has no reading (RFC 8415 §11.1). -/
+example : ¬ ∃ d, PDUID [0, 5] d := by
+  rintro ⟨d, h⟩
+  have := (C05_duid_layout _ _).mpr h
+  simp [decDUID, Lexer.new, Lexer.has, Lexer.read16, Lexer.consume, Lexer.len] at this
 
 theorem C05_empty_rejected : dec6 [] = .err := by rfl
 theorem C05_header_only_accepted : dec6 [1, 0xaa, 0xbb, 0xcc] = .ok (.msg 1 [0xaa, 0xbb, 0xcc] []) := by rfl
